@@ -55,7 +55,7 @@ structure State where
   tcpFlags : Nat := 0          -- NS<<8 | byte 13
   icmpType : Nat := 0
   icmpCode : Nat := 0
-  arpAddrType : Nat := 0
+  arpAddrType : Nat := 0      -- big-endian rcvARP.Contents[0:2]: the hardware type as the processor reads it
   arpProtocol : Nat := 0
   arpHwSize : Nat := 0
   arpProtSize : Nat := 0
@@ -159,8 +159,10 @@ def decodeARP (st : State) (d : Bytes) : Dec :=
   else
     let hw := (u8 d 4).getD 0
     let pr := (u8 d 5).getD 0
-    let st := { st with arpAddrType := (u16 d 0).getD 0, arpProtocol := (u16 d 2).getD 0,
-                        arpHwSize := hw, arpProtSize := pr }
+    -- gopacket's own `AddrType` is a `uint8` (`layers.LinkType`) and keeps only the low byte of the hardware
+    -- type; no code of sx reads it any more (D18), so it is not part of the state.  `arpAddrType` is the
+    -- 16-bit value at `rcvARP.Contents[0:2]`, assigned where `Contents` is: at the very end of a successful decode
+    let st := { st with arpProtocol := (u16 d 2).getD 0, arpHwSize := hw, arpProtSize := pr }
     let arpLength := (8 + 2 * hw + 2 * pr) % 256
     if d.length < arpLength then .err st
     else
@@ -177,7 +179,7 @@ def decodeARP (st : State) (d : Bytes) : Dec :=
           let st := { st with arpSrcProt := (d.take b).drop a }
           if b > c ∨ c > d.length then .panic st
           else if c > arpLength ∨ arpLength > d.length then .panic st
-          else .ok st (.other 5) (d.drop arpLength)
+          else .ok { st with arpAddrType := (u16 d 0).getD 0 } (.other 5) (d.drop arpLength)
 
 def decodeLayer (t : LT) (st : State) (d : Bytes) : Dec :=
   match t with
